@@ -38,13 +38,19 @@ CONFIGS = {
     "portable1": dict(dir=".", crate="blake3",
                       args=["--target", "riscv64gc-unknown-none-elf", "-Zbuild-std=core,alloc",
                             "--no-default-features"]),
+    # aarch64, no_std: the NEON flavour (src/ffi_neon.rs + platform dispatch).  build.rs compiles c/blake3_neon.c with clang
+    # for the aarch64 target against the x86 glibc headers plus one stub (syntax/codegen only, nothing is linked or run)
+    "neon1": dict(dir=".", crate="blake3",
+                  args=["--target", "aarch64-unknown-none", "-Zbuild-std=core,alloc", "--no-default-features"],
+                  env={"CC": "clang", "CFLAGS": "--target=aarch64-linux-gnu -isystem %s -isystem /usr/include/x86_64-linux-gnu"
+                       % os.path.join(VERIF, "engines/cfront/stubs/aarch64")}),
     "refimpl": dict(dir="reference_impl", crate="reference_impl", args=[]),
     "testvec": dict(dir="test_vectors", crate="test_vectors", args=["--lib"]),
     "b3sum": dict(dir="b3sum", crate="b3sum", args=[], scratch=True),
 }
 QUICK = ["asm-full", "pure-full", "portable1"]
 ALL_BLAKE3 = ["asm-full", "asm-default", "asm-nostd", "pure-full", "intr-full", "no512", "no2", "no41",
-              "no2x", "portable1"]
+              "no2x", "portable1", "neon1"]
 
 SKIP_DIRS = {".git", "target", "media", "benches", "tools", ".github"}
 
@@ -184,6 +190,7 @@ def extract(cfg, force=False, quiet=True):
                 "CARGO_TARGET_DIR": tgt,
             })
             env.pop("RUSTC_WRAPPER", None)
+            env.update(spec.get("env", {}))
             if os.path.exists(out + ".new"):
                 os.remove(out + ".new")
             cmd = ["cargo", "+nightly", "check", "--offline"] + spec["args"]
